@@ -18,7 +18,7 @@ import (
 const verifC01KnownFirstProposal = "acked-first-proposal-truncated:base=0"
 
 type verifScriptWeights struct {
-	commit, retry, failover, reinstall, crash, restart, isolate, cut, heal, drop, flush, staleCommit, badInstall, fence, cleanFailover int
+	commit, retry, failover, reinstall, crash, restart, isolate, cut, heal, drop, flush, staleCommit, badInstall, fence, cleanFailover, pageCut int
 }
 
 type verifScriptOpts struct {
@@ -150,7 +150,7 @@ func verifRunScript(rt *rapid.T, k *kit.Case, s *verifSim, o verifScriptOpts) ve
 	}
 	actions := []action{{"commit", w.commit}, {"retry", w.retry}, {"failover", w.failover}, {"reinstall", w.reinstall}, {"crash", w.crash},
 		{"restart", w.restart}, {"isolate", w.isolate}, {"cut", w.cut}, {"heal", w.heal}, {"drop", w.drop}, {"flush", w.flush},
-		{"staleCommit", w.staleCommit}, {"badInstall", w.badInstall}, {"fence", w.fence}, {"cleanFailover", w.cleanFailover}}
+		{"staleCommit", w.staleCommit}, {"badInstall", w.badInstall}, {"fence", w.fence}, {"cleanFailover", w.cleanFailover}, {"pageCut", w.pageCut}}
 	var bag []string
 	for _, a := range actions {
 		for i := 0; i < a.w; i++ {
@@ -520,6 +520,14 @@ func verifRunScript(rt *rapid.T, k *kit.Case, s *verifSim, o verifScriptOpts) ve
 			if resp && kind == ExchangeReplicate {
 				s.flags["follower durable but response lost"] = true
 			}
+		case "pageCut":
+			// let j recovery pages (Fetch exchanges) through, then lose the next ones:
+			// an Install is interrupted between two atomic page replacements
+			target := rapid.IntRange(1, N).Draw(rt, "pageCutTarget")
+			skip := rapid.IntRange(0, 3).Draw(rt, "pageCutAfter")
+			note("pageCut target=%d after=%d", target, skip)
+			s.armDropAfter(ch.NodeID(target), ExchangeFetch, rapid.Bool().Draw(rt, "pageCutResponse"), skip, 2)
+			s.flags["recovery page fetch interruption armed"] = true
 		case "flush":
 			note("flush")
 			if !s.quiesce(3 * time.Second) {
